@@ -25,6 +25,9 @@ THEOREMS = ["SigpyVerif.C16." + t for t in [
     # the GENERATED recon set-ups (Gen/ReconSetup.lean), Props/C16Recon.lean
     "lls_lamda_default", "estimate_weights_doc", "recon_y_weighted", "senserecon_setup", "l1waveletrecon_setup", "tvrecon_setup",
     "senseLin_isAdj", "senserecon_cg_minimises", "tvrecon_kkt_minimises", "unitary_transform_prox",
+    # `num_coil_batches` is the ceiling of n/b — proved from the CHARACTERISATION (q-1)·b < n ≤ q·b of the generated
+    # formula, not from its shape ((n+b-1)//b, (n-1)//b+1, -(-n//b) all pass; a non-ceiling formula fails)
+    "ediv_char", "ceil_unique", "numCoilBatches_char", "numCoilBatches_nat",
 ]]
 
 TOL_MODEL = 1e-9     # real (double) pipeline vs the exact model on the same F: observed <= 1e-14 relative
